@@ -81,7 +81,7 @@ def run_sequence(it, st, fns, vals):
 
 
 def run(rep, tier):
-    Lb = 2 if tier == 'quick' else 4
+    Lb = 2 if tier == 'quick' else 3
     rep.bounds['content'] = f'template /a/{{v1}}/b/{{v2}}?k={{q1}}&j={{q2}}; every value a valid-UTF-8 byte string of <= {Lb} bytes, all 256 byte values admitted'
     rep.bounds['length'] = 'length-only abstraction: value lengths over the full 64-bit range, len(encode(s)) in [len s, 3 len s]'
     prog = program(['conjure_http'])
